@@ -22,6 +22,30 @@ def gen_sessions(ctx, family):
     return senderlib.gen(ctx, family, 0, module="Gen_Recv", extra_consts='Mode = "sess" MaxN = 13')
 
 
+def sample_sessions(specs, n, seed):
+    """Seeded sample of session shapes, stratified by (content length, FEC scheme) of the first object so that every
+    combination of partition shape and scheme is present in a small sample."""
+    if n is None or len(specs) <= n:
+        return list(specs)
+    rnd = random.Random(seed)
+    groups = {}
+    for sp in specs:
+        o = (sp.get("objs") or [{}])[0]
+        groups.setdefault((o.get("clen"), (o.get("oti") or {}).get("scheme")), []).append(sp)
+    keys = sorted(groups, key=lambda k: (str(k[0]), str(k[1])))
+    for k in keys:
+        rnd.shuffle(groups[k])
+    out, i = [], 0
+    while len(out) < n:
+        k = keys[i % len(keys)]
+        if groups[k]:
+            out.append(groups[k].pop())
+        i += 1
+        if all(not g for g in groups.values()):
+            break
+    return out
+
+
 def session_infos(ctx, specs, label):
     """Runs the real sender on every spec; returns the session records (post-processed: FDT XML parsed
     independently, strings interned) used by the TLC generator and by the monitor."""
@@ -86,6 +110,7 @@ def gen_chan(ctx, family, infos, maxn=13, timeout=1800, sel=None):
     rows = [i for i in infos if (sel is None or sel(i)) and not i.get("skip")]
     # the generator only needs the packet structure
     write_ndjson(sess_file, [{"sid": i["sid"], "cfg": {"fdt_dur": i["cfg"].get("fdt_dur", 3600)},
+                              "objs": [{"L": o["L"], "E": o["E"], "B": o["B"], "par": o["par"], "scheme": o["scheme"]} for o in i.get("objs", [])],
                               "pkts": [{"k": p["k"], "o": p["o"], "id": p["id"], "sbn": p["sbn"], "esi": p["esi"], "t": p["t"]} for p in i["pkts"]]} for i in rows])
     cfg = ctx.path("genchan-%s.cfg" % family)
     with open(cfg, "w") as f:
